@@ -324,6 +324,14 @@ theorem te_de_valid_fp {c : FpCfg} (h : WFc c) (a d : Fp c.p) (r : Nat)
   have : (teSmul a d r P == TEAff.zero) = true := h2
   exact beq_iff_eq.mp this
 
+/-- … with the curve test spelled as the textbook equation `a·x² + y² = 1 + d·x²·y²` -/
+theorem te_de_valid_fp_textbook {c : FpCfg} (h : WFc c) (a d : Fp c.p) (r : Nat)
+    (cm : Compress) (bs : List Nat) (s : Rd) (P : TEAff (Fp c.p))
+    (hd : runM (teDeserialize (fpCodec c) (teCfgFp a d r) cm .yes) bs = .ok P s) :
+    a * P.x * P.x + P.y * P.y = 1 + d * (P.x * P.x) * (P.y * P.y) ∧ teSmul a d r P = TEAff.zero :=
+  ⟨(teIsOnCurve_fp (teCfgFp a d r) P).mp (te_de_valid_fp h a d r cm bs s P hd).1,
+    (te_de_valid_fp h a d r cm bs s P hd).2.1⟩
+
 theorem te_de_reduced_fp {c : FpCfg} (h : WFc c) (E : TECfg (Fp c.p)) (cm : Compress) (vd : Validate)
     (bs : List Nat) (s : Rd) (P : TEAff (Fp c.p))
     (hd : runM (teDeserialize (fpCodec c) E cm vd) bs = .ok P s) : P.x.val < c.p ∧ P.y.val < c.p :=
